@@ -289,6 +289,26 @@ def getKey (P : Prims) (addr : Bytes) (f : KeyFile) (auth : Bytes) : Res Key :=
   | .ok k => if k.addr ≠ addr then .err .mismatch else .ok k
   | r => r
 
+/-! ### the key directory: writeKeyFile / UpdateKey -/
+
+/-- the key directory: path -> content (the serialised key file, byte for byte). -/
+abbrev Disk := Bytes → Option Bytes
+
+/-- key.go writeKeyFile (os.WriteFile: create or TRUNCATE, then write): the file is exactly the last write. -/
+def writeFile (d : Disk) (path content : Bytes) : Disk := fun p => if p = path then some content else d p
+
+/-- what a write WITHOUT truncation (O_WRONLY|O_CREATE only) leaves in an existing file: the new bytes followed by the
+    tail of the old content. -/
+def writeNoTrunc (old new : Bytes) : Bytes := new ++ old.drop new.length
+
+/-- the same directory at the level of parsed key files (what DecryptKey sees of each path). -/
+abbrev Store := Bytes → Option KeyFile
+
+def Store.write (s : Store) (path : Bytes) (f : KeyFile) : Store := fun p => if p = path then some f else s p
+
+/-- keyStorePassphrase.GetKey on the directory (ReadFile failure = `none`). -/
+def getKeyAt (P : Prims) (s : Store) (addr path auth : Bytes) : Option (Res Key) := (s path).map (fun f => getKey P addr f auth)
+
 /-! ### EncryptKey -/
 
 def scryptR : Int := 8
